@@ -583,6 +583,7 @@ def process_cases(ctx, cases: List[Case], stream: str, tie: bool = True) -> List
         elif what == "wprint":
             c, src, text = payload
             ctx.count("tie:wprint")
+            ctx.count("wprint:wireOK" if a.get("wireOK") else "wprint:outside-wireOK")
             if a.get("toks") != qastle_tokens(text):
                 ctx.disagreement("qastle.python_ast_to_text_ast", {"term": T.show(src)}, a.get("toks", "none"), qastle_tokens(text))
         elif what == "wparse":
